@@ -70,6 +70,38 @@ def sequential_items(rng, tier):
     return [{"id": "aseq%d" % j, "module": mod, "script": [INST] + calls[j:j + 300]} for j in range(0, len(calls), 300)]
 
 
+def isolated_items(rng):
+    """Every read-modify-write and compare-exchange flavour on a cell of its own that is only touched through accesses of the
+    same width and type (store, the operation, load): results that do not depend on the byte order configuration, so the same
+    scenario runs in the little-endian and in the forced big-endian build."""
+    sq = sequential_items(rng, "thorough")[0]["module"]
+    names = {e["name"] for e in sq["exports"]}
+    calls, addr = [], 1024
+    vals = {"i32": [0x81828384, 0x000000FF, 0x7F80FF01, 1, 0xFFFFFFFF], "i64": [0x8182838485868788, 0xFF, 0x0102030480FF7F00, 1, (1 << 64) - 1]}
+    for op in ATOMIC:
+        parts = op.split(".")
+        t, kind = parts[0], parts[2]
+        if not kind.startswith("rmw"):
+            continue
+        w = kind[3:]                                   # "", "8", "16", "32"
+        st_, ld_ = "%s_atomic_store%s_0" % (t, w), "%s_atomic_load%s%s_0" % (t, w, "_u" if w else "")
+        nm = op.replace(".", "_") + "_0"
+        if not {st_, ld_, nm} <= names:
+            continue
+        for v0 in vals[t][:3]:
+            for v in vals[t][2:5]:
+                addr += 16
+                calls.append({"op": "call", "inst": 1, "export": st_, "args": [val("i32", addr), val(t, v0)]})
+                if "cmpxchg" in op:
+                    bits = int(w) if w else (32 if t == "i32" else 64)
+                    calls.append({"op": "call", "inst": 1, "export": nm, "args": [val("i32", addr), val(t, v0 & ((1 << bits) - 1)), val(t, v)]})
+                    calls.append({"op": "call", "inst": 1, "export": nm, "args": [val("i32", addr), val(t, 0x1111), val(t, v0)]})
+                else:
+                    calls.append({"op": "call", "inst": 1, "export": nm, "args": [val("i32", addr), val(t, v)]})
+                calls.append({"op": "call", "inst": 1, "export": ld_, "args": [val("i32", addr)]})
+    return [{"id": "aiso%d" % j, "module": sq, "script": [INST] + calls[j:j + 400]} for j in range(0, len(calls), 400)]
+
+
 FLAVS = [("8", "i32", "8"), ("16", "i32", "16"), ("32", "i32", ""), ("8l", "i64", "8"), ("16l", "i64", "16"), ("32l", "i64", "32"), ("64", "i64", "")]
 WIDTH = {"8": 8, "16": 16, "32": 32, "8l": 8, "16l": 16, "32l": 32, "64": 64}
 CELL = {8: 64, 16: 72, 32: 80, 64: 88}
@@ -95,6 +127,24 @@ def thread_module():
         for op in ("ld", "st", "add", "xchg", "cas"):
             funcs.append({"type": 0, "locals": [], "body": body[op] + [["end"]]})
             exports.append({"name": op + tag, "kind": "func", "idx": len(funcs) - 1})
+    # message passing inside ONE function each (so that an optimiser sees several atomic accesses together): the writer stores
+    # data (at addr) and then the flag (at addr + 8); the reader reads data early, spins on the flag, reads data again
+    for tag, t in (("32", "i32"), ("64", "i64")):
+        al = 2 if t == "i32" else 3
+        down = [["i32.wrap_i64"]] if t == "i32" else []
+        up = [["i64.extend_i32_u"]] if t == "i32" else []
+        funcs.append({"type": 0, "locals": [], "body": [g(0), g(1)] + down + [["%s.atomic.store" % t, al, 0], g(0), g(1)] + down + [["%s.atomic.store" % t, al, 8],
+                                                           ["i64.const", b64(0)], ["end"]]})
+        exports.append({"name": "mpw" + tag, "kind": "func", "idx": len(funcs) - 1})
+        # reader, straight line: data (early), flag, data again; "not ready" (all ones) unless the flag shows this round.  The
+        # early reading is used (compared with a value the data never takes), so it cannot simply be dropped; the driver polls.
+        funcs.append({"type": 0, "locals": [["i64", 2]],
+                      "body": [g(0), ["%s.atomic.load" % t, al, 0]] + up + [["local.set", 3],
+                               g(0), ["%s.atomic.load" % t, al, 8]] + up + [["local.set", 4],
+                               g(0), ["%s.atomic.load" % t, al, 0]] + up +
+                              [g(3), ["i64.const", b64(0x7FFFFFF1)], ["i64.eq"], ["i64.extend_i32_u"], ["i64.add"],
+                               ["i64.const", b64((1 << 64) - 1)], g(4), g(1), ["i64.eq"], ["select"], ["end"]]})
+        exports.append({"name": "mpr" + tag, "kind": "func", "idx": len(funcs) - 1})
     return {"types": types, "funcs": funcs, "memory": {"min": 1, "max": 1, "shared": True}, "exports": exports}
 
 
@@ -160,6 +210,10 @@ def main():
     m_le = tlc_ok(tlc("MCAtomics", cfg="Atomics_LE.cfg", workers=4, timeout=900), "Atomics LE")
     m_be = tlc("MCAtomics", cfg="Atomics_BEMutex.cfg", workers=4, timeout=900)
     m_fix = tlc_ok(tlc("MCAtomics", cfg="Atomics_BEMutexStoreLocked.cfg", workers=4, timeout=900), "Atomics BE with locked stores")
+    # 2a. the same-width scenarios in both byte order configurations (results only: the raw image of the forced one is reversed)
+    st0, _ = machine.replay(v, isolated_items(rng), [{"name": "le", "cc": "gcc", "cflags": ("-O1",)},
+                                                       {"name": "be-forced", "cc": "gcc", "cflags": ("-O1",), "defs": ("-DWASM_ENDIAN=1",)}],
+                            sigfn=lambda it, k, why, b, e, a: "iso:%s:%s:%s" % (b["name"], it["script"][k - 1].get("export", "?"), why.split(":")[0]), observe_mems=False)
     # 2. sequential semantics of all flavours (machine replay)
     st, exp = machine.replay(v, sequential_items(rng, tier), [{"name": "gcc-O1", "cc": "gcc", "cflags": ("-O1",)}, {"name": "clang-O2", "cc": "clang", "cflags": ("-O2",)}],
                              sigfn=lambda it, k, why, b, e, a: "seq:%s:%s" % (it["script"][k - 1].get("export", "?"), why.split(":")[0]))
@@ -175,9 +229,9 @@ def main():
         if rc != 0:
             raise common.MachineryError("cannot translate the thread module: " + se[-500:])
         exes = {}
-        for name, defs in (("le", []), ("be", ["-DWASM_ENDIAN=1"])):
+        for name, defs in (("le", []), ("be", ["-DWASM_ENDIAN=1"]), ("le-clang", [])):
             exe = os.path.join(wd, "thr-" + name)
-            rc, so, se = run(["gcc", "-O2", "-w", "-I", wd, "-I", os.path.join(REPO, "w2c2"), "-DWASM_THREADS_PTHREADS", *defs,
+            rc, so, se = run(["clang" if name.endswith("clang") else "gcc", "-O2", "-w", "-I", wd, "-I", os.path.join(REPO, "w2c2"), "-DWASM_THREADS_PTHREADS", *defs,
                               os.path.join(BINDC, "atomics_threads.c"), os.path.join(wd, "at.c"), "-o", exe, "-lpthread", "-lm"], timeout=300)
             if rc != 0:
                 raise common.MachineryError("cannot build thread driver (%s): %s" % (name, se[-1500:]))
@@ -226,6 +280,18 @@ def main():
                                                                    "final": hist[bad][-1]["mem"]})
         # 4. the big-endian configuration: a completed atomic store racing with a mutex-protected RMW must survive
         # 4a. hammer: 4 threads x N exchanges / additions on one cell, per flavour: conservation laws that follow from atomicity
+        # 4z. message passing, both compilers: what the reader returns after seeing the flag is this round's data
+        for name in ("le", "le-clang", "be"):
+            rc, so, se = run([exes[name], "mp", "2", "400000" if tier == "quick" else "4000000"], timeout=300)
+            try:
+                mp = json.loads(so.strip().splitlines()[-1])
+            except (ValueError, IndexError):
+                mp = None
+                v.deviation("litmus:%s:message-passing:%s" % (name, "hang" if rc == -999 else "crash"), {"rc": rc, "stderr": se[-400:]})
+            if mp:
+                stress[name + "-mp"] = mp
+                if mp["stale"]:
+                    v.deviation("litmus:%s:message-passing" % name, mp)
         for name in ("le", "be"):
             rc, so, se = run([exes[name], "hammer", "4", "20000" if tier == "quick" else "200000"], timeout=900)
             for l in so.splitlines():
